@@ -928,6 +928,13 @@ lys_compile_type_range(struct lysc_ctx *ctx, const struct lysp_restr *range_p, L
                 LY_CHECK_GOTO(ret = range_part_minmax(ctx, part, 1, part->min_64, basetype, 0, length_restr, frdigits, NULL, &expr), cleanup);
                 range_expected = 0;
             } else {
+                if (parts && (parts_done != LY_ARRAY_COUNT(parts))) {
+                    /* the previous part was not terminated by '|' */
+                    LOGVAL(ctx->ctx, LYVE_SYNTAX_YANG, "Invalid %s restriction - unexpected data (%s).",
+                            length_restr ? "length" : "range", expr);
+                    ret = LY_EVALID;
+                    goto cleanup;
+                }
                 LY_ARRAY_NEW_GOTO(ctx->ctx, parts, part, ret, cleanup);
                 LY_CHECK_GOTO(ret = range_part_minmax(ctx, part, 0, parts_done ? parts[LY_ARRAY_COUNT(parts) - 2].max_64 : 0,
                         basetype, parts_done ? 0 : 1, length_restr, frdigits, NULL, &expr), cleanup);
@@ -951,6 +958,13 @@ lys_compile_type_range(struct lysc_ctx *ctx, const struct lysp_restr *range_p, L
                 LY_CHECK_GOTO(ret = range_part_minmax(ctx, part, 1, part->min_64, basetype, 0, length_restr, frdigits, base_range, NULL), cleanup);
                 range_expected = 0;
             } else {
+                if (parts && (parts_done != LY_ARRAY_COUNT(parts))) {
+                    /* the previous part was not terminated by '|' */
+                    LOGVAL(ctx->ctx, LYVE_SYNTAX_YANG, "Invalid %s restriction - unexpected data before max keyword (%.*s).",
+                            length_restr ? "length" : "range", (int)(expr - range_p->arg.str), range_p->arg.str);
+                    ret = LY_EVALID;
+                    goto cleanup;
+                }
                 LY_ARRAY_NEW_GOTO(ctx->ctx, parts, part, ret, cleanup);
                 LY_CHECK_GOTO(ret = range_part_minmax(ctx, part, 1, parts_done ? parts[LY_ARRAY_COUNT(parts) - 2].max_64 : 0,
                         basetype, parts_done ? 0 : 1, length_restr, frdigits, base_range, NULL), cleanup);
